@@ -38,7 +38,7 @@ def explore(tier):
                       spec="MSpec", prefix=("MTR",), constraint="LevelBound", env={"GIVEN_FILE": path},
                       on_line=collect_sampled)
         stats.append(res.stats)
-    num, depth = (16, 5) if tier == "quick" else (400, 10)
+    num, depth = (16, 5) if tier == "quick" else (600, 6)   # deeper walks double arrays (x.extend(x)) beyond what fits in memory
     res = run_tlc("Msg", {"ExhaustiveLevels": 99, "MaxLevel": 99}, invariants=["AlwaysValid"], properties=MSG_PROPS, spec="MSpec",
                   prefix=("MTR",), env={"GIVEN_FILE": path}, on_line=collect, simulate=num, depth=depth,
                   seed=seed(), workers=1)
@@ -111,7 +111,7 @@ def _run(pid, tier):
     if pid == "C10":
         for f in sizer_range_probe():
             rep.violation(f, shadows.match(pid, f))
-    n_walks, walk_len = (150, 6) if tier == "quick" else (2000, 10)
+    n_walks, walk_len = (150, 6) if tier == "quick" else (2000, 7)
     jobs = []
     for gid, defs in enumerate(schemas, 1):
         es = edges[gid]
